@@ -311,6 +311,17 @@ func (g *e2eGen) headers(p *callPlan) {
 		// any whole number of milliseconds is a timeout (not only round ones)
 		p.timeout = time.Duration(1000+tp.Intn("tmoany", 200000)) * time.Millisecond
 	}
+	if k := tp.Intn("nulhdr", 8); k >= 6 {
+		// names that differ only in trailing NUL bytes are different names
+		base := "z" + genString(tp, "hdr", 3)
+		p.reqHdr[base] = "plain"
+		p.reqHdr[base+"\x00"] = "one-nul"
+		if k == 7 {
+			p.reqHdr[base+"\x00\x00"] = "two-nuls"
+			p.respHdr[base+"\x00"] = "resp-one-nul"
+			p.respHdr[base] = "resp-plain"
+		}
+	}
 	if len(p.reqHdr) > 0 && tp.Intn("bighdr", 12) == 11 {
 		// one header value larger than any read buffer on the way
 		p.reqHdr[sortedKeys(p.reqHdr)[0]] = strings.Repeat(genString(tp, "hdr", 6)+"v", 1000+tp.Intn("bighdr", 3000))
